@@ -324,6 +324,40 @@ func TestVerifC08Scenarios(t *testing.T) {
 		cases++
 	}
 
+	// (F) a sync that runs longer than the idle-handler TTL: the cleaner must leave the handler alone, so that a
+	// further announcement of the same publisher still waits for the running sync
+	{
+		p := verifC08NewPub(t)
+		h := newVerifC08Hooks()
+		sub := verifC08NewSub(t, dstHost, h, dagsync.IdleHandlerTTL(100*time.Millisecond))
+		h1 := p.extend(t)
+		gate := h.hold(p.peerInfo.ID)
+		if err := sub.Announce(ctx, h1, p.peerInfo); err != nil {
+			t.Fatal(err)
+		}
+		verifC08Entered(t, h, "idle: first sync")
+		time.Sleep(450 * time.Millisecond) // several cleaner rounds
+		h2 := p.extend(t)
+		if err := sub.Announce(ctx, h2, p.peerInfo); err != nil {
+			t.Fatal(err)
+		}
+		time.Sleep(300 * time.Millisecond)
+		for _, c := range h.snapshot() {
+			if c.c == h2 {
+				t.Fatal("idle: a second sync of the publisher reported a block while its first sync (longer than the idle-handler TTL) was still running")
+			}
+		}
+		close(gate)
+		verifC08WaitLatest(t, sub, p.peerInfo.ID, h2, "idle")
+		if err := sub.Close(); err != nil {
+			t.Fatal(err)
+		}
+		if h.overlap {
+			t.Fatal("idle: hook calls of two syncs of one publisher overlapped")
+		}
+		cases++
+	}
+
 	// (C) more publishers than the concurrency limit
 	{
 		pa, pb := verifC08NewPub(t), verifC08NewPub(t)
